@@ -153,7 +153,9 @@ Example C01_ex_hyps :
 Proof.
   split; [exact ex_C06_hyps|]. split; [exact ex_unz_ok|]. split; [exact ex_codec_ok|].
   split; [exact ex_call_small|]. split; [exact ex_call_wf|]. split; [reflexivity|].
-  split; [exact ex_trace_wf|exact ex_fuel].
+  assert (E : ex_trace = rev (w_trace (r_final (W ex_o ex_lib ex_comp None (ex_cs_pre ++ [CClose])))))
+    by (unfold ex_trace, ex_R, ex_cs; reflexivity).
+  rewrite <- E. split; [exact ex_trace_wf|exact ex_fuel].
 Qed.
 
 (* the same calls under three more configurations (a compressing codec; no chunking and several
@@ -164,8 +166,10 @@ Example C01_ex_hyps_more :
   (C06_hyps ex_o_big ex_lib ex_comp ex_cs_pre /\ codec_ok ex_lo ds_z ex_o_big ex_comp
    /\ wf_file ex_lo ds_z ex_trace_big).
 Proof.
-  repeat split; auto using ex_C06_hyps_z, ex_C06_hyps_u, ex_C06_hyps_big, ex_codec_ok_z, ex_codec_ok_u,
-    ex_codec_ok_big, ex_trace_wf_z, ex_trace_wf_u, ex_trace_wf_big.
+  split; [|split].
+  - split; [exact ex_C06_hyps_z|]. split; [exact ex_codec_ok_z|exact ex_trace_wf_z].
+  - split; [exact ex_C06_hyps_u|]. split; [exact ex_codec_ok_u|exact ex_trace_wf_u].
+  - split; [exact ex_C06_hyps_big|]. split; [exact ex_codec_ok_big|exact ex_trace_wf_big].
 Qed.
 
 (* computed independently of the theorems *)
